@@ -32,10 +32,101 @@ from .walkmodel import assigned_value, reaching_defs
 CLOCKS = ("ext:time.monotonic", "ext:time.time", "ext:time.perf_counter", "ext:time.monotonic_ns")
 
 
+def check_disco_provenance(ctx: Ctx, rep: Report, usm) -> None:
+    """
+    What discovery learns is what the reply's *security parameters* say (RFC 3414 section 4: msgAuthoritativeEngineID,
+    -Boots, -Time of the Report): every `DiscoData(...)` built by the discovery exchange takes its engine id, boots and
+    time from `USMSecurityParameters.decode(<reply>.security_parameters)` - not from the scoped PDU's contextEngineID,
+    which an agent may legally leave empty.
+    """
+    fn = ctx.r.method(usm, "send_discovery_message")
+    if fn is None:
+        rep.undecided("C12-R7", f"{usm.module.path} ({usm.name})", "the discovery exchange exists", "send_discovery_message missing")
+        return
+    disco_cls = None
+    for key in ("puresnmp_plugins.security.usm:DiscoData", "puresnmp.plugins.security:DiscoData"):
+        disco_cls = disco_cls or ctx.u.classes.get(ctx.u.canonical(key))
+    params_cls = ctx.u.classes.get(ctx.u.canonical("puresnmp_plugins.security.usm:USMSecurityParameters"))
+    keep = [m.key for m in params_cls.methods.values()] if params_cls is not None else []
+    view = ctx.inlined(fn, keep=keep)  # helpers of the exchange spliced in; the parameter decoder stays a call
+    built = [n for n in own_nodes(view.node) if isinstance(n, ast.Call) and disco_cls is not None and ctx.r.resolve_class(view.module, n.func) == disco_cls]
+    if not built:
+        rep.undecided("C12-R7", fn.site(), "the discovery exchange builds its result (DiscoData)", "constructor call not found")
+        return
+    from ..engine.context import dataclass_fields
+
+    for call in built:
+        b = bind_call_args(call, dataclass_fields(disco_cls), skip_self=False)
+        for fld in ("authoritative_engine_id", "authoritative_engine_boots", "authoritative_engine_time"):
+            arg = b.get(fld)
+            txt = norm(ctx.xexpand(view, arg, depth=2)) if arg is not None else ""
+            ok = txt.endswith(f".{fld}") and "USMSecurityParameters.decode(" in txt and ".security_parameters)" in txt
+            rep.check(ok, "C12-R7", view.site(call), f"discovery takes {fld} from the reply's USM security parameters (msgAuthoritativeEngine...)", f"{fld} = {txt[:120]}", key=f"{fn.key}|disco-provenance|{fld}")
+
+
+def usmstats_by_evaluation(ctx: Ctx, rep: Report, val: FuncInfo):
+    """
+    `validate_usm_message` evaluated on messages whose scoped PDU is a Report / a GetResponse carrying an ordinary
+    binding followed by one of the six usmStats counters of RFC 3414 section 5 (or by another ordinary binding):
+    a Report with a usmStats counter raises SnmpError, everything else returns.  [(ok, text, detail, key)] or None.
+    """
+    from ..engine.minieval import Instance, MiniEval, OidVal, Raised, Unevaluable
+
+    snmp_error = ctx.u.cls("puresnmp.exc:SnmpError")
+    int_cls = ctx.u.cls("x690.types:Integer")
+    vb_cls = ctx.u.cls("puresnmp.varbind:VarBind")
+
+    def binding(oid: str, k: int) -> Instance:
+        v = Instance(int_cls, [], {})
+        v.attrs.update(value=k, pyvalue=k)
+        vb = Instance(vb_cls, [], {})
+        vb.attrs.update(oid=OidVal(tuple(int(x) for x in oid.split("."))), value=v)
+        vb.attrs["__items__"] = [vb.attrs["oid"], v]
+        return vb
+
+    def message(payload_cls: str, oids: List[str]) -> Instance:
+        content = Instance(ctx.u.cls("puresnmp.pdu:PDUContent"), [], {})
+        content.attrs.update(request_id=1, varbinds=[binding(o, i) for i, o in enumerate(oids)], error_status=0, error_index=0)
+        pdu = Instance(ctx.u.cls(f"puresnmp.pdu:{payload_cls}"), [], {})
+        pdu.attrs.update(value=content, pyvalue=content)
+        scoped = Instance(ctx.u.cls("puresnmp.adt:ScopedPDU"), [], {})
+        scoped.attrs.update(data=pdu, context_engine_id=b"", context_name=b"")
+        msg = Instance(ctx.u.cls("puresnmp.adt:PlainMessage"), [], {})
+        msg.attrs.update(scoped_pdu=scoped, security_parameters=b"", version=3)
+        return msg
+
+    def run_one(payload_cls: str, oids: List[str]):
+        try:
+            return "return", MiniEval(ctx, max_steps=20000).call_function(val, [message(payload_cls, oids)], {})
+        except Raised as exc:
+            return "raise", exc.value
+
+    ordinary = "1.3.6.1.2.1.1.3.0"
+    out = []
+    try:
+        for oid, name in sorted(rfc.USM_STATS.items()):
+            kind, got = run_one("Report", [ordinary, oid])
+            ok = kind == "raise" and isinstance(got, Instance) and ctx.r.is_subclass(got.cls, snmp_error)
+            out.append((ok, f"{name} ({oid}) is recognised as an error report (a Report carrying it after an ordinary binding raises SnmpError)", f"{kind}: {got!r}"[:160], f"usmstats|{oid}"))
+        kind, got = run_one("Report", [ordinary, "1.3.6.1.2.1.1.5.0"])
+        out.append((kind == "return", "every binding of the (report) PDU is looked up and a hit raises SnmpError; a Report without a usmStats counter passes", f"{kind}: {got!r}"[:160], "report-raise"))
+        leaks = []
+        for oid in sorted(rfc.USM_STATS):
+            kind, got = run_one("GetResponse", [ordinary, oid])
+            if kind != "return":
+                leaks.append(oid)
+        out.append((not leaks, "the usmStats OIDs count as error indication only in Report PDUs (an authentic response that carries them as data - a GET or walk below 1.3.6.1.6.3.15.1.1 - is delivered)", f"a GetResponse carrying {leaks} raises" if leaks else "", "usmstats-in-data"))
+    except Unevaluable as exc:
+        rep.info(f"{val.qualname} is not followed by the evaluator ({exc}); reading its structure instead")
+        return None
+    return out
+
+
 def run(ctx: Ctx, rep: Report) -> None:
     rep.rule("C12-R1", "the discovery cache is filled before it is read, on every path of the v3 encode", floor=2)
     rep.rule("C12-R2", "security engine id and default context engine id come from discovery", floor=1)
     rep.rule("C12-R3", "the engine time sent advances with a local clock read relative to the moment of discovery", floor=2)
+    rep.rule("C12-R7", "the discovered engine id, boots and time are read from the reply's USM security parameters", floor=2)
     rep.rule("C12-R4", "all six usmStats report OIDs surface as SnmpError", floor=4)
     rep.rule("C12-R5", "the discovery reply is matched to the probe by message id", floor=2)
     rep.rule("C12-R6", "a notInTimeWindow report leads to re-synchronisation (refresh / invalidation of the discovery cache)", floor=1)
@@ -44,7 +135,7 @@ def run(ctx: Ctx, rep: Report) -> None:
         "time.monotonic() is non-decreasing",
     ]
     v3 = mpm_class(ctx, 3)
-    enc = own_method(ctx, v3, "encode")
+    enc = ctx.inlined(own_method(ctx, v3, "encode"))  # small helpers of the class (lazy security model, local engine time) spliced in
     usm = usm_class(ctx)
     cfg = ctx.cfg(enc)
     defs = ctx.defs(enc)
@@ -192,6 +283,11 @@ def run(ctx: Ctx, rep: Report) -> None:
 
         if targ is not None and tnode is not None:
             clock_dep = depends_on_clock(targ, tnode)
+        # a local with several definitions (the return slot of a spliced helper): what reaches the call when a stamp exists
+        if isinstance(targ, ast.Name) and tnode is not None and len(defs.all_values(targ.id)) > 1:
+            reaching = last_defs(targ.id, tnode)
+            if len(reaching) == 1:
+                targ = reaching[0]
         base_ok = targ is not None and f"self.{cache}.authoritative_engine_time" in norm(defs.expand(targ, stop=["elapsed"]))
         rep.check(
             clock_dep and base_ok,
@@ -258,105 +354,113 @@ def run(ctx: Ctx, rep: Report) -> None:
     if val is None:
         rep.violated("C12-R4", "puresnmp_plugins/security/usm.py", "USM report validation exists", "validate_usm_message vanished", key="usm|no-report-validation")
     else:
-        # OID-keyed tables of the validator or of its module (one of them is the set of report OIDs that is tested)
-        tables: Dict[str, Dict[str, ast.AST]] = {}
+        evaluated = usmstats_by_evaluation(ctx, rep, val)
+        if evaluated is not None:
+            for ok_, text_, detail_, key_ in evaluated:
+                rep.check(ok_, "C12-R4", val.site(), text_, detail_, key=f"{val.key}|{key_}")
+        if evaluated is None:
+            # OID-keyed tables of the validator or of its module (one of them is the set of report OIDs that is tested)
+            tables: Dict[str, Dict[str, ast.AST]] = {}
 
-        def oid_table(value: ast.AST) -> Dict[str, ast.AST]:
-            tab: Dict[str, ast.AST] = {}
-            if isinstance(value, (ast.Dict, ast.Set, ast.Tuple, ast.List)):
-                keys = value.keys if isinstance(value, ast.Dict) else value.elts
-                for k in keys:
-                    if isinstance(k, ast.Call) and k.args:
-                        try:
-                            tab[ctx.r.const(val.module, k.args[0])] = k
-                        except NotConstant:
-                            pass
-            return tab
+            def oid_table(value: ast.AST) -> Dict[str, ast.AST]:
+                tab: Dict[str, ast.AST] = {}
+                if isinstance(value, (ast.Dict, ast.Set, ast.Tuple, ast.List)):
+                    keys = value.keys if isinstance(value, ast.Dict) else value.elts
+                    for k in keys:
+                        if isinstance(k, ast.Call) and k.args:
+                            try:
+                                tab[ctx.r.const(val.module, k.args[0])] = k
+                            except NotConstant:
+                                pass
+                return tab
 
-        for n in own_nodes(val.node):
-            value = n.value if isinstance(n, (ast.Assign, ast.AnnAssign)) else None
-            tgt = (n.targets[0] if isinstance(n, ast.Assign) else n.target) if value is not None else None
-            if value is not None and isinstance(tgt, ast.Name) and oid_table(value):
-                tables[tgt.id] = oid_table(value)
-        for name, binding in ctx.r.env(val.module).items():
-            if binding.kind == "value" and binding.module is val.module and name not in tables and oid_table(binding.target):
-                tables[name] = oid_table(binding.target)
-        vdefs = ctx.defs(val)
-        snmp_error = ctx.u.cls("puresnmp.exc:SnmpError")
-        tested: Optional[str] = None
-        loop_ok = False
-        detail = ""
+            for n in own_nodes(val.node):
+                value = n.value if isinstance(n, (ast.Assign, ast.AnnAssign)) else None
+                tgt = (n.targets[0] if isinstance(n, ast.Assign) else n.target) if value is not None else None
+                if value is not None and isinstance(tgt, ast.Name) and oid_table(value):
+                    tables[tgt.id] = oid_table(value)
+            for name, binding in ctx.r.env(val.module).items():
+                if binding.kind == "value" and binding.module is val.module and name not in tables and oid_table(binding.target):
+                    tables[name] = oid_table(binding.target)
+            vdefs = ctx.defs(val)
+            snmp_error = ctx.u.cls("puresnmp.exc:SnmpError")
+            tested: Optional[str] = None
+            loop_ok = False
+            detail = ""
 
-        def hit_test(test: ast.AST, target: str) -> Optional[str]:
-            """Name of the table a test looks the binding's OID up in:  <b>.oid in T  /  T.get(<b>.oid) is not None  /  T.get(..)."""
-            test = vdefs.expand(test, stop=[target] + list(tables))
-            if isinstance(test, ast.Compare) and len(test.ops) == 1:
-                left, right = test.left, test.comparators[0]
-                if isinstance(test.ops[0], ast.In) and norm(left) == f"{target}.oid":
-                    if isinstance(right, ast.Call) and isinstance(right.func, ast.Attribute) and right.func.attr == "keys":
-                        right = right.func.value
-                    return norm(right) if norm(right) in tables else None
-                if isinstance(test.ops[0], ast.IsNot) and isinstance(right, ast.Constant) and right.value is None:
-                    return hit_test(left, target)
-            if isinstance(test, ast.Call) and isinstance(test.func, ast.Attribute) and test.func.attr == "get" and len(test.args) == 1 and norm(test.args[0]) == f"{target}.oid":
-                return norm(test.func.value) if norm(test.func.value) in tables else None
-            return None
+            def hit_test(test: ast.AST, target: str) -> Optional[str]:
+                """Name of the table a test looks the binding's OID up in:  <b>.oid in T  /  T.get(<b>.oid) is not None  /  T.get(..)."""
+                test = vdefs.expand(test, stop=[target] + list(tables))
+                if isinstance(test, ast.Compare) and len(test.ops) == 1:
+                    left, right = test.left, test.comparators[0]
+                    if isinstance(test.ops[0], ast.In) and norm(left) == f"{target}.oid":
+                        if isinstance(right, ast.Call) and isinstance(right.func, ast.Attribute) and right.func.attr == "keys":
+                            right = right.func.value
+                        return norm(right) if norm(right) in tables else None
+                    if isinstance(test.ops[0], ast.IsNot) and isinstance(right, ast.Constant) and right.value is None:
+                        return hit_test(left, target)
+                if isinstance(test, ast.Call) and isinstance(test.func, ast.Attribute) and test.func.attr == "get" and len(test.args) == 1 and norm(test.args[0]) == f"{target}.oid":
+                    return norm(test.func.value) if norm(test.func.value) in tables else None
+                return None
 
-        for n in own_nodes(val.node):
-            if isinstance(n, ast.For) and norm(vdefs.expand(n.iter)).endswith(".varbinds") and isinstance(n.target, ast.Name):
-                for sub in ast.walk(n):
-                    if not isinstance(sub, ast.If):
-                        continue
-                    tname = hit_test(sub.test, n.target.id)
-                    raises = None
-                    if tname is None:
-                        # the inverted form:  if <lookup> is None / not <lookup> / <oid> not in T: continue  - the hit is
-                        # what follows in the loop body
-                        t = vdefs.expand(sub.test, stop=[n.target.id] + list(tables))
-                        inv = None
-                        if isinstance(t, ast.Compare) and len(t.ops) == 1 and isinstance(t.ops[0], ast.Is) and isinstance(t.comparators[0], ast.Constant) and t.comparators[0].value is None:
-                            inv = t.left
-                        elif isinstance(t, ast.UnaryOp) and isinstance(t.op, ast.Not):
-                            inv = t.operand
-                        elif isinstance(t, ast.Compare) and len(t.ops) == 1 and isinstance(t.ops[0], ast.NotIn):
-                            inv = ast.Compare(t.left, [ast.In()], t.comparators)
-                        tname = hit_test(inv, n.target.id) if inv is not None else None
-                        if tname is None or sub not in n.body or sub.orelse or not (sub.body and isinstance(sub.body[-1], ast.Continue)):
+            for n in own_nodes(val.node):
+                if isinstance(n, ast.For) and norm(vdefs.expand(n.iter)).endswith(".varbinds") and isinstance(n.target, ast.Name):
+                    for sub in ast.walk(n):
+                        if not isinstance(sub, ast.If):
                             continue
-                        raises = [s for s in n.body[n.body.index(sub) + 1:] if isinstance(s, ast.Raise)]
-                    tested = tname
-                    if raises is None:
-                        raises = [s for s in sub.body if isinstance(s, ast.Raise)]
-                    classes = ctx.exc_classes(val, raises[0].exc) if raises else None
-                    loop_ok = bool(raises) and classes is not None and all(ctx.r.is_subclass(c, snmp_error) for c in classes)
-                    detail = f"raises {[c.name for c in classes] if classes is not None else 'an unresolved class'}" if raises else "the hit does not raise unconditionally"
-        # only Report PDUs carry USM error indications: in a GetResponse the usmStats counters are ordinary data
-        def not_report_env(expr: ast.expr) -> Optional[bool]:
-            expr = vdefs.expand(expr)  # type: ignore[assignment]
-            if isinstance(expr, ast.Call) and isinstance(expr.func, ast.Name) and expr.func.id == "isinstance" and len(expr.args) == 2:
-                cls_ = ctx.r.resolve_class(val.module, expr.args[1])
-                if cls_ is not None and cls_.name == "Report":
-                    return False
-            return None
+                        tname = hit_test(sub.test, n.target.id)
+                        raises = None
+                        if tname is None:
+                            # the inverted form:  if <lookup> is None / not <lookup> / <oid> not in T: continue  - the hit is
+                            # what follows in the loop body
+                            t = vdefs.expand(sub.test, stop=[n.target.id] + list(tables))
+                            inv = None
+                            if isinstance(t, ast.Compare) and len(t.ops) == 1 and isinstance(t.ops[0], ast.Is) and isinstance(t.comparators[0], ast.Constant) and t.comparators[0].value is None:
+                                inv = t.left
+                            elif isinstance(t, ast.UnaryOp) and isinstance(t.op, ast.Not):
+                                inv = t.operand
+                            elif isinstance(t, ast.Compare) and len(t.ops) == 1 and isinstance(t.ops[0], ast.NotIn):
+                                inv = ast.Compare(t.left, [ast.In()], t.comparators)
+                            tname = hit_test(inv, n.target.id) if inv is not None else None
+                            if tname is None or sub not in n.body or sub.orelse or not (sub.body and isinstance(sub.body[-1], ast.Continue)):
+                                continue
+                            raises = [s for s in n.body[n.body.index(sub) + 1:] if isinstance(s, ast.Raise)]
+                        tested = tname
+                        if raises is None:
+                            raises = [s for s in sub.body if isinstance(s, ast.Raise)]
+                        classes = ctx.exc_classes(val, raises[0].exc) if raises else None
+                        loop_ok = bool(raises) and classes is not None and all(ctx.r.is_subclass(c, snmp_error) for c in classes)
+                        detail = f"raises {[c.name for c in classes] if classes is not None else 'an unresolved class'}" if raises else "the hit does not raise unconditionally"
+            # only Report PDUs carry USM error indications: in a GetResponse the usmStats counters are ordinary data
+            def not_report_env(expr: ast.expr) -> Optional[bool]:
+                expr = vdefs.expand(expr)  # type: ignore[assignment]
+                if isinstance(expr, ast.Call) and isinstance(expr.func, ast.Name) and expr.func.id == "isinstance" and len(expr.args) == 2:
+                    cls_ = ctx.r.resolve_class(val.module, expr.args[1])
+                    if cls_ is not None and cls_.name == "Report":
+                        return False
+                return None
 
-        nouts = simulate(ctx.cfg(val), not_report_env)
-        callers_guard = []
-        for caller, ccall in ctx.callers_of(val):
-            ccfg = ctx.cfg(caller)
-            cn = cfg_node_of(ccfg, ccall)
-            conds = ccfg.conditions_to(cn) if cn is not None else []
-            callers_guard.append(bool(conds) and all(any("isinstance(" in norm(c) and "Report" in norm(c) and pol for c, pol in path) for path in conds))
-        only_reports = (bool(nouts) and all(o.kind != "raise" for o in nouts)) or (bool(callers_guard) and all(callers_guard))
-        rep.check(only_reports, "C12-R4", val.site(), "the usmStats OIDs count as error indication only in Report PDUs (an authentic response that carries them as data - a GET or walk below 1.3.6.1.6.3.15.1.1 - is delivered)", "a PDU that is not a Report reaches the raising lookup" if not only_reports else "", key=f"{val.key}|usmstats-in-data")
-        table = tables.get(tested, {}) if tested else {}
-        for oid, name in sorted(rfc.USM_STATS.items()):
-            rep.check(oid in table, "C12-R4", val.site(), f"{name} ({oid}) is recognised as an error report", f"tested table `{tested}`: {sorted(table)}", key=f"{val.key}|usmstats|{oid}")
-        rep.check(loop_ok, "C12-R4", val.site(), "every binding of the (report) PDU is looked up and a hit raises SnmpError", detail, key=f"{val.key}|report-raise")
+            nouts = simulate(ctx.cfg(val), not_report_env)
+            callers_guard = []
+            for caller, ccall in ctx.callers_of(val):
+                ccfg = ctx.cfg(caller)
+                cn = cfg_node_of(ccfg, ccall)
+                conds = ccfg.conditions_to(cn) if cn is not None else []
+                callers_guard.append(bool(conds) and all(any("isinstance(" in norm(c) and "Report" in norm(c) and pol for c, pol in path) for path in conds))
+            only_reports = (bool(nouts) and all(o.kind != "raise" for o in nouts)) or (bool(callers_guard) and all(callers_guard))
+            rep.check(only_reports, "C12-R4", val.site(), "the usmStats OIDs count as error indication only in Report PDUs (an authentic response that carries them as data - a GET or walk below 1.3.6.1.6.3.15.1.1 - is delivered)", "a PDU that is not a Report reaches the raising lookup" if not only_reports else "", key=f"{val.key}|usmstats-in-data")
+            table = tables.get(tested, {}) if tested else {}
+            for oid, name in sorted(rfc.USM_STATS.items()):
+                rep.check(oid in table, "C12-R4", val.site(), f"{name} ({oid}) is recognised as an error report", f"tested table `{tested}`: {sorted(table)}", key=f"{val.key}|usmstats|{oid}")
+            rep.check(loop_ok, "C12-R4", val.site(), "every binding of the (report) PDU is looked up and a hit raises SnmpError", detail, key=f"{val.key}|report-raise")
         proc = own_method(ctx, usm, "process_incoming_message")
         pcfg = ctx.cfg(proc)
         vnodes = [cfg_node_of(pcfg, n) for n in own_nodes(proc.node) if isinstance(n, ast.Call) and val in [c for c in ctx.r.callees(proc, n) if isinstance(c, FuncInfo)]]
         vnodes = [n for n in vnodes if n is not None]
         rep.check(bool(vnodes) and pcfg.must_pass(pcfg.entry, [pcfg.exit], vnodes), "C12-R4", proc.site(), "every accepted message passes the report validation", key=f"{proc.key}|report-validation-bypass")
+
+    # ------------------------------------------------------------ R7
+    check_disco_provenance(ctx, rep, usm)
 
     # ------------------------------------------------------------ R5
     from .c07 import check_discovery
